@@ -2217,6 +2217,10 @@ func (b *BlocksHistory) Decode(d *Decoder) error {
 		return nil
 	}
 
+	if length > uint64(MaxBlocksHistory) {
+		return fmt.Errorf("BlocksHistory length %d is greater than MaxBlocksHistory %d", length, MaxBlocksHistory)
+	}
+
 	// make the slice with length
 	history := make([]BlockInfo, length)
 	for i := uint64(0); i < length; i++ {
@@ -2272,6 +2276,10 @@ func (a *AuthPool) Decode(d *Decoder) error {
 
 	if length == 0 {
 		return nil
+	}
+
+	if length > uint64(AuthPoolMaxSize) {
+		return fmt.Errorf("AuthPool length %d is greater than AuthPoolMaxSize %d", length, AuthPoolMaxSize)
 	}
 
 	// make the slice with length
